@@ -136,6 +136,13 @@ def run(ctx):
     for k in carriers:
         for c in ("nesting", "magic-numbers", "srp"):
             idx[("ignore", c, k)] = P.add(("ignore", c, k), proj, c, merged(BASE, {"ignore": ["st/nest.py", "st/nums.py", "st/cls.py"]}), k)
+    # ... and a directory pattern for every command (commands load an explicit --config file in their own ways)
+    for c in cmds:
+        if c == "file-placement":
+            continue
+        for k in (carriers if not ctx.quick else ["yaml-hyphen", "json-hyphen", "pyproject-hyphen", "opt-yaml", "group-opt-yaml"]):
+            if k in carriers:
+                idx[("ignore-dir", c, k)] = P.add(("ignore-dir", c, k), proj, c, merged(BASE, {"ignore": ["st/"]}), k)
     # ---- invalid values and unparsable files ---------------------------------------------------------------------------
     invalid = [("nesting", "nesting", "max_nesting_depth", 0), ("nesting", "nesting", "max_nesting_depth", -1), ("srp", "srp", "max_methods", 0),
                ("srp", "srp", "max_loc", 0), ("dry", "dry", "min_duplicate_lines", 0), ("dry", "dry", "min_occurrences", 0),
@@ -229,6 +236,19 @@ def run(ctx):
         if sets[0] == sets[-1]:
             ctx.discrepancy("setting-no-effect:%s.%s" % (sec, key), "`%s`: %s.%s swept over %r never changes the output (%d violations)" % (c, sec, key, values, len(sets[0])), rep(i0), P.jobs[i0][0])
             continue
+        for fname, pat in (staircase.FAMILIES.get((sec, key)) or {}).items():
+            import re as _re
+
+            def in_family(x, pat=pat):
+                if pat.startswith("."):
+                    return x[1].endswith(pat)
+                src = proj.get(x[1], "").split("\n")
+                return 0 < x[2] <= len(src) and _re.search(pat, src[x[2] - 1]) is not None
+            first, last = {x for x in sets[0] if in_family(x)}, {x for x in sets[-1] if in_family(x)}
+            ctx.count("sweep_families_checked")
+            if first == last:
+                ctx.discrepancy("setting-no-effect-on-family:%s.%s:%s" % (sec, key, fname), "`%s`: %s.%s swept over %r never changes the verdicts of the %s constructs (%d flagged at both ends)" % (
+                    c, sec, key, values, fname, len(first)), rep(i0), P.jobs[i0][0])
         for a in range(len(values) - 1):
             if c == "dry":
                 # a duplicate reported with the larger (more permissive) window must overlap lines reported with the smaller window
@@ -337,6 +357,22 @@ def run(ctx):
             kind = "group-opt" if k.startswith("group") else "opt" if k.startswith("opt") else k.split("-")[0]
             ctx.discrepancy("top-level-ignore-not-honoured:%s" % kind, "`%s` with top-level ignore list via %s: files of the list still reported %r (exit %s %s)" % (
                 c, k, still, r["exit"], r["err"][-100:]), rep(i), P.jobs[i][0])
+    for key, i in idx.items():
+        if key[0] != "ignore-dir":
+            continue
+        _, c, k = key
+        r = R[i]
+        ctx.count("ignore_dir_cases")
+        dflt = vset(res(("default", c)))
+        want = {x for x in dflt if not x[1].startswith("st/")}
+        if want != dflt:
+            ctx.nontrivial(["ignore-dir", c, k])
+        got = vset(r)
+        still = sorted(x for x in (got or set()) if x[1].startswith("st/"))[:2]
+        if r["v"] is None or still or (c not in ("dry", "stringly-typed") and got != want):
+            kind = "group-opt" if k.startswith("group") else "opt" if k.startswith("opt") else k.split("-")[0]
+            ctx.discrepancy("top-level-ignore-not-honoured:%s:%s" % (kind, c), "`%s` with top-level ignore ['st/'] via %s: files under st/ still reported %r; other findings %s (exit %s %s)" % (
+                c, k, still, "unchanged" if got is not None and {x for x in got if not x[1].startswith("st/")} == want else "changed", r["exit"], r["err"][-100:]), rep(i), P.jobs[i][0])
     # invalid values: whatever .thailint.yaml rejects must be rejected everywhere; documented non-positive limits must be rejected
     documented_invalid = {("nesting", "max_nesting_depth"), ("srp", "max_methods"), ("srp", "max_loc"), ("dry", "min_duplicate_lines"), ("dry", "min_occurrences")}
     for key, i in idx.items():
